@@ -523,6 +523,10 @@ def _run_check(pid, tier, seed, udir, meta, work, ev_path, t0, only):
                            solver_s=r['solver_s'], status=r['status'], bounded=r['bounded'], clause=r.get('clause', ''),
                            groups=r.get('groups', []),
                            reason=r['reason'][:300]))
+        if r.get('differential') is not None:
+            per_fn[-1]['vc_generator_differential_check'] = r['differential']
+        if r.get('assumption'):
+            per_fn[-1]['unchecked_assumption'] = r['assumption']
     samples = []
     for r in results:
         for o in r['obligations']:
